@@ -323,13 +323,21 @@ func cmdCheck(args []string) {
 			abstrAll[fr.Key+": "+a] = true
 		}
 	}
-	var samples []map[string]string
-	for _, r := range all {
-		if len(samples) >= 3 {
-			break
+	samples := []map[string]string{}
+	{
+		// the three smallest discharged claimed queries of this run, written out
+		var cands []*OblResult
+		for _, r := range all {
+			if claims[r.Obl.Name] && r.Status == "discharged" && r.Obl.Kind != "cover" && r.Script != "" {
+				cands = append(cands, r)
+			}
 		}
-		if claims[r.Obl.Name] && r.Status == "discharged" && len(r.Script) < 6000 && r.Obl.Kind != "cover" {
-			samples = append(samples, map[string]string{"obligation": r.Obl.Name, "smtlib": r.Script, "answer": r.Res.Status, "solver": r.Res.Solver})
+		sort.SliceStable(cands, func(i, j int) bool { return len(cands[i].Script) < len(cands[j].Script) })
+		for _, r := range cands {
+			if len(samples) >= 3 {
+				break
+			}
+			samples = append(samples, map[string]string{"obligation": r.Obl.Name, "smtlib": truncate(r.Script, 20000), "answer": r.Res.Status, "solver": r.Res.Solver})
 		}
 	}
 	assumptions := append([]string{}, baseAssumptions...)
